@@ -731,6 +731,10 @@ def first_value(e):
                         continue
                     if chain[0] == "var":
                         return None
+                    if chain[0] == "adt" and chain[1] in ("core::ops::range::Range", "core::ops::range::RangeInclusive", "core::ops::range::RangeFrom"):
+                        # a plain integer range: the item itself is the index
+                        st = chain[3][0] if chain[3] else None
+                        return st[1] + skip if st is not None and st[0] == "const" and isinstance(st[1], int) else None
                     if chain[0] != "call":
                         break
                     last = chain[1].rsplit("::", 1)[-1]
